@@ -205,7 +205,7 @@ def _decode_builtin_double(buffer: _Buffer, type: DoubleType) -> float:
 
 def _decode_str(buffer: _Buffer, type: StringType) -> str:
     len = _decode_builtin_unsigned(buffer, UnsignedType("u32"))
-    return bytearray(buffer.read_bytes(len)).decode("ascii")
+    return bytearray(buffer.read_word(8) for _ in range(len)).decode("ascii")
 
 
 def _decode_array(buffer: _Buffer, fcp: FcpV2, type: ArrayType) -> List[Any]:
